@@ -135,6 +135,10 @@ func c14Queries() []c14Query {
 		{Name: "global", Part: false, SQL: "SELECT lag(v) AS p, acc_sum(v) AS s, latest(v) AS lt FROM stream", Cols: map[string]string{"p": "lag1", "s": "sum", "lt": "latest"}},
 		{Name: "where-analytic", Part: false, SQL: "SELECT k, acc_count(v) AS c FROM stream WHERE had_changed(true, v)", Cols: map[string]string{"c": "cnt"},
 			Post: func(out map[string]*float64, r c14In) bool { return out["hc"] != nil && *out["hc"] == 1 }},
+		// an analytic call inside WHERE with both PARTITION BY and WHEN in its OVER clause (every usable v is > 0: the
+		// gate never closes, but the partition list must still be the one written)
+		{Name: "where-analytic-over-when", Part: true, SQL: "SELECT k, acc_sum(v) OVER (PARTITION BY k) AS s FROM stream WHERE acc_count(v) OVER (PARTITION BY k WHEN v > 0) >= 2", Cols: map[string]string{"s": "sum"},
+			Post: func(out map[string]*float64, r c14In) bool { return out["cnt"] != nil && *out["cnt"] >= 2 }},
 	}
 }
 
